@@ -626,6 +626,25 @@ func Contents(names []string) []Content {
 		})
 		c.Pointer = true
 	}
+	// a pointer whose target holds, one level down, a pointer into a shared parameter / response (both kinds of pointer are
+	// in W; the caller may sit deeper or shallower in the document than the inner pointer)
+	for _, kind := range []string{"parameters", "responses"} {
+		kind := kind
+		c := add("pointerToHolderOfSharedPointer["+kind+"]", "pointer-shared-simple", func(b *BundleSpec, s int) J {
+			n := "hsp" + kind[:3]
+			if kind == "parameters" {
+				b.Add(RootFile, P(J{"name": "body", "in": "body", "schema": J{"type": "string", "description": "shared inner"}}, "parameters", n),
+					P(J{"operationId": "headHsp", "parameters": []any{J{"$ref": "#/parameters/" + n}}}, "paths", "/hsp", "head"), P(J{"description": "ok"}, "paths", "/hsp", "head", "responses", "200"))
+			} else {
+				b.Add(RootFile, P(J{"description": "shared", "schema": J{"type": "string", "description": "shared inner"}}, "responses", n), P(J{"$ref": "#/responses/" + n}, "paths", BasePath, "get", "responses", "411"))
+			}
+			b.Add(RootFile, P(J{"type": "object", "properties": J{"q": J{"type": "array", "items": J{"$ref": "#/" + kind + "/" + n + "/schema"}}}}, "definitions", "tgtHolder"+kind[:3]))
+			b.use("tgtHolder" + kind[:3])
+			b.HasPointer, b.HasSharedPointer = true, true
+			return J{"$ref": "#/definitions/tgtHolder" + kind[:3] + "/properties/q"}
+		})
+		c.Pointer, c.SharedPointer = true, true
+	}
 	for _, kind := range []string{"parameters", "responses"} {
 		for _, cx := range []string{"simple", "complex"} {
 			kind, cx := kind, cx
